@@ -465,8 +465,7 @@ class OpenDocument:
                 mediatype, encoding = mimetypes.guess_type(filename)
             if mediatype is None:
                 mediatype = u''
-                try: ext = filename[filename.rindex(u'.'):]
-                except: ext=u''
+                ext = os.path.splitext(filename)[1]
             else:
                 ext = mimetypes.guess_extension(mediatype)
             manifestfn = u"Pictures/%s%s" % (uuid.uuid4().hex.upper(), ext)
@@ -497,8 +496,7 @@ class OpenDocument:
             mediatype, encoding = mimetypes.guess_type(filename)
         if mediatype is None:
             mediatype = u''
-            try: ext = filename[filename.rindex(u'.'):]
-            except ValueError: ext=u''
+            ext = os.path.splitext(filename)[1]
         else:
             ext = mimetypes.guess_extension(mediatype)
         manifestfn = u"Pictures/%s%s" % (uuid.uuid4().hex.upper(), ext)
